@@ -76,6 +76,8 @@ pub trait DecisionNNFBuilder<'a>: TopDownBuilder<'a, BddPtr<'a>> {
             if let Some((_, v)) = entries.iter().find(|(key, _)| *key == residual) {
                 return *v;
             }
+            #[cfg(feature = "verif")]
+            crate::verif::note_component_hash_conflict();
         }
 
         // recurse on both values of cur_v
